@@ -114,6 +114,22 @@ def gen_problem(rng, scalar=None, family=None, N=None, S=None, ctor=None, weight
             "meta": {"family": family, "N": N, "M": M, "P": P, "S": S, "weights": wkind, "range": [lo, hi]}}
 
 
+def scale_up_for_eps(rng, c):
+    """a LARGE user threshold (1e-3 .. 0.03) that is still below every singular value: the problem is scaled up through the weights
+    (sigma_max >> 1) while the threshold stays absolute — nothing may be truncated, whatever the scale of the matrix. Returns eps."""
+    sc = c["scalar"]
+    eps = rng.choice([1e-3, -1e-2, 0.03])
+    N = c["meta"]["N"]
+    c["build"] = [o for o in c["build"] if o[0] not in ("weights", "eps")]
+    k = rng.choice([32.0, 256.0, 1024.0])
+    c["build"].append(["weights", [hx(k * rng.choice([1.0, 0.5, 2.0]), sc) for _ in range(N)]])
+    c["build"].append(["eps", hx(eps, sc)])
+    rng.shuffle(c["build"])
+    c["meta"]["weights"] = "scaled"
+    c["meta"]["eps"] = eps
+    return eps
+
+
 SCALABLE = ("exp2c", "gaussc")     # every parameter of these families is a length / position on the x axis
 
 
